@@ -85,25 +85,25 @@ impl CredSoftLockPolicy {
                     LockState::Locked {
                         count,
                         reset_at,
-                        unlock_at: ct + Duration::from_secs(1),
+                        unlock_at: std::cmp::min(ct + Duration::from_secs(1), reset_at),
                     }
                 } else if count < 9 {
                     LockState::Locked {
                         count,
                         reset_at,
-                        unlock_at: ct + Duration::from_secs(3),
+                        unlock_at: std::cmp::min(ct + Duration::from_secs(3), reset_at),
                     }
                 } else if count < 25 {
                     LockState::Locked {
                         count,
                         reset_at,
-                        unlock_at: ct + Duration::from_secs(5),
+                        unlock_at: std::cmp::min(ct + Duration::from_secs(5), reset_at),
                     }
                 } else if count < 100 {
                     LockState::Locked {
                         count,
                         reset_at,
-                        unlock_at: ct + Duration::from_secs(10),
+                        unlock_at: std::cmp::min(ct + Duration::from_secs(10), reset_at),
                     }
                 } else {
                     LockState::Locked {
@@ -130,7 +130,7 @@ impl CredSoftLockPolicy {
                     LockState::Locked {
                         count,
                         reset_at,
-                        unlock_at: ct + Duration::from_secs(1),
+                        unlock_at: std::cmp::min(ct + Duration::from_secs(1), reset_at),
                     }
                 }
             }
